@@ -42,7 +42,15 @@ def decoded_single_col_empty_row(e):
     return False
 
 
+def filter_dt_sub_minute(e):
+    for v in walk(e.get("tree")):
+        if v.get("k") == "dt" and v.get("off", 0) % 60 != 0:
+            return True
+    return False
+
+
 PREDICATES = {
+    "filter_literal_dt_with_sub_minute_offset": filter_dt_sub_minute,
     "decoded_single_col_grid_with_empty_row": decoded_single_col_empty_row,
     "decoded_dt_with_sub_minute_offset": decoded_dt_sub_minute,
     "single_col_grid_with_empty_row": has_single_col_empty_row,
